@@ -318,6 +318,7 @@ def d4_release_notify(facts, rep):
         for fn in facts.get(fname):
             ok, wit = every_path_passes(fn, 'entry', lambda p, e: is_call_to(fn, e, shortnames=names))
             rep.ob('D4', 'K4', fn, 'every path through the release notifies the sleepers', ok, wit)
+    rw_downgrade_wakes_all(facts, rep, 'D4')
     # bounded queue
     bq = D2 + 'concurrent_bounded_queue::'
     for name, what in (('internal_push', 'push'), ('internal_push_if_not_full', 'push')):
@@ -1015,3 +1016,30 @@ def d2_recheck_between_prepare_and_commit(facts, rep, clause='D2'):
                    'functor never runs)' % ', '.join(missing or ['(no prepare_wait inside the loop)']), ln=cnode['ln'], key_extra='recheck|%s' % fn.p)
     if sites < 1:
         raise AnalysisBroken('no wait loop through commit_wait with an exit condition found (task_arena_impl::execute)')
+
+
+def rw_downgrade_wakes_all(facts, rep, clause):
+    """rw_mutex::downgrade: the writer becomes a reader, so every reader that fell asleep while the writer held the lock is
+    admissible from now on (unless a writer is pending, which keeps them out anyway).  The lock stays held - nothing else will
+    wake them until the holder releases - so the downgrade itself wakes ALL of them: with a notifier that wakes every matching
+    sleeper (read from the bodies of the r1 notifiers: the ones built on the monitor's wake-all notification), not one."""
+    wake_all = set()
+    for g in facts.fns.values():
+        if g.q.startswith(R1 + 'notify_by_address') and calls_named(g, ('notify_relaxed', 'notify', 'notify_all_relaxed', 'notify_all')):
+            wake_all.add(g.u)
+    if not wake_all:
+        raise AnalysisBroken('no r1::notify_by_address* variant built on the wake-all monitor notification found')
+    for fn in facts.get(D1 + 'rw_mutex::downgrade'):
+        def pending(a, truth):
+            x = fn.n(fn.strip(a))
+            if x.get('k') == 'binop' and x['op'] == '&':
+                names = [fn.nodes[y].get('n') or fn.nodes[y].get('glob') or '' for y in fn.subtree(x['s'])]
+                return truth and any('WRITER_PENDING' in (nm or '') for nm in names)
+            return False
+        pe = edges_where(fn, pending)
+        ok, wit = every_path_passes(fn, 'entry', lambda p, e: isinstance(e, int) and fn.nodes[e].get('k') == 'call' and fn.nodes[e].get('fn') in wake_all,
+                                    stop_edge=lambda b, si: (b, si) in pe)
+        rep.ob(clause, 'K4', fn, 'a downgrade with no writer pending wakes every sleeping reader', ok,
+               'the readers that fell asleep while the writer held the lock are not all woken by the downgrade (no wake-all notification '
+               'on this path: %s); the lock stays held, so they sleep until the holder releases - for ever if the holder waits for them'
+               % wit, key_extra='downgrade')
